@@ -78,6 +78,12 @@ struct Side {
     last_win_emitted: Option<u16>,
     max_ack_emitted: u64,
     dead: bool,
+    /// newest advertisement (in the peer's emission order) delivered so far:
+    /// (emission index, ack relative to this side's ISN, window)
+    w_newest: Option<(usize, u64, u32)>,
+    /// highest right edge (ack + window) this side has advertised, and
+    /// whether that advertisement was a SYN / SYN-ACK
+    max_edge: Option<(u64, bool)>,
 }
 
 /// C16 monitors (per packet and at quiescent points). Complaints are
@@ -98,7 +104,8 @@ impl Mon {
         *self.counters.entry(k.to_string()).or_default() += n;
     }
     fn complain(&mut self, class: &str, detail: String) {
-        if self.complaints.len() < 16 {
+        let same = self.complaints.iter().filter(|(c, _)| c == class).count();
+        if same < 4 && self.complaints.len() < 24 {
             self.complaints.push((class.to_string(), detail));
         }
     }
@@ -452,6 +459,10 @@ impl Wire {
             }
             sx.iss = Some(s.seq);
             sx.syn_emitted = true;
+            if !s.flags.ack && sx.max_edge.is_none() {
+                // the SYN's window counts from the peer's first byte
+                sx.max_edge = Some((1 + s.window as u64, true));
+            }
             sx.max_end = sx.max_end.max(1);
             sx.max_data_end = sx.max_data_end.max(1);
             if sx.a == 0 {
@@ -482,24 +493,43 @@ impl Wire {
                     retx = true;
                 }
                 // ---- window monitor -------------------------------------
+                // "never more bytes in flight than the window its peer last
+                // advertised": the peer's last advertisement is the newest one
+                // (in the peer's emission order) that has been delivered; an
+                // older ACK that arrives later does not replace it.
                 if self.monitors_on && sx.est && !sx.dead {
-                    if let Some(w) = sx.w {
-                        let inflight = end.saturating_sub(sx.a);
+                    if let (Some(w_last), Some((_, a_n, w_n))) = (sx.w, sx.w_newest) {
+                        let a = sx.a.max(a_n);
+                        let inflight = end.saturating_sub(a);
                         self.mon.count("window_bound_evaluations", 1);
                         self.mon.max_inflight = self.mon.max_inflight.max(inflight);
-                        if inflight == w as u64 {
+                        if inflight == w_n as u64 {
                             self.mon.count("window_bound_tight", 1);
                         }
-                        if inflight > w as u64 {
-                            self.mon.complain(
-                                "window-exceeded",
-                                format!(
-                                    "{} data segment seq={relseq} len={len}: {} bytes beyond the highest ACK delivered to the sender ({}), but the last window delivered to it was {w}",
-                                    dir.as_str(),
-                                    inflight,
-                                    sx.a
-                                ),
-                            );
+                        if end > a_n + w_n as u64 {
+                            // a sender that simply follows whatever ACK arrived
+                            // last (even an overtaken one) is the known
+                            // stale-ACK defect; anything else is untagged
+                            let follows_last_delivered = end.saturating_sub(sx.a) <= w_last as u64;
+                            if follows_last_delivered && w_last != w_n {
+                                self.mon.complain(
+                                    "window-exceeded@stale-ack",
+                                    format!(
+                                        "{} data segment seq={relseq} len={len} ends at {end}, beyond the right edge {} of the peer's newest delivered advertisement (ack={a_n}, window={w_n}); the sender follows an older, overtaken ACK (window {w_last}) that was delivered after it",
+                                        dir.as_str(),
+                                        a_n + w_n as u64
+                                    ),
+                                );
+                            } else {
+                                self.mon.complain(
+                                    "window-exceeded",
+                                    format!(
+                                        "{} data segment seq={relseq} len={len} ends at {end}: {} bytes beyond the highest ACK delivered to the sender ({a}), but the window its peer last advertised (ack={a_n}) is {w_n}",
+                                        dir.as_str(),
+                                        inflight
+                                    ),
+                                );
+                            }
                         }
                     }
                 }
@@ -525,6 +555,32 @@ impl Wire {
             sx.last_win_emitted = Some(s.window);
             if !s.flags.syn || s.flags.ack {
                 sx.max_ack_emitted = sx.max_ack_emitted.max(relack);
+            }
+            if self.monitors_on && self.sides[y].iss.is_some() {
+                // the right edge a receiver advertises never moves left
+                let edge = relack + s.window as u64;
+                let sx = &mut self.sides[x];
+                match sx.max_edge {
+                    Some((m, from_syn)) if edge < m => {
+                        let class = if from_syn { "window-shrunk@handshake" } else { "window-shrunk" };
+                        let detail = format!(
+                            "{} segment advertises ack={relack} window={}: right edge {edge} is {} bytes left of the edge {m} advertised before{}",
+                            dir.as_str(),
+                            s.window,
+                            m - edge,
+                            if from_syn { " (by the SYN / SYN-ACK, which announces 65535 whatever recv_buf_cap is)" } else { "" }
+                        );
+                        // every retreat is reported once: continue from the new edge
+                        sx.max_edge = Some((edge, false));
+                        self.mon.count("right_edge_evaluations", 1);
+                        self.mon.complain(class, detail);
+                    }
+                    Some((m, _)) if edge == m => self.mon.count("right_edge_evaluations", 1),
+                    _ => {
+                        self.mon.count("right_edge_evaluations", 1);
+                        sx.max_edge = Some((edge, s.flags.syn));
+                    }
+                }
             }
             if self.monitors_on {
                 let m = &mut self.mon;
@@ -591,10 +647,16 @@ impl Wire {
                 if sy.w.is_none() {
                     sy.w = Some(rec.window as u32);
                 }
+                if sy.w_newest.is_none() {
+                    sy.w_newest = Some((idx, 1, rec.window as u32));
+                }
             }
             Kind::SynAck => {
                 sy.est = true; // client is established once a SYN-ACK reached it
                 sy.w = Some(rec.window as u32);
+                if sy.w_newest.map(|(i, _, _)| idx > i).unwrap_or(true) {
+                    sy.w_newest = Some((idx, rec.ack, rec.window as u32));
+                }
                 if rec.ack > sy.a && rec.ack <= sy.max_end.max(1) {
                     sy.a = rec.ack;
                 }
@@ -607,6 +669,9 @@ impl Wire {
                         sy.est = true;
                     }
                     sy.w = Some(rec.window as u32);
+                    if sy.w_newest.map(|(i, _, _)| idx > i).unwrap_or(true) {
+                        sy.w_newest = Some((idx, rec.ack, rec.window as u32));
+                    }
                     if rec.ack > sy.a && rec.ack <= sy.max_end {
                         sy.a = rec.ack;
                         let c = &self.sh.ack_progress[dir.rev().idx()];
@@ -671,7 +736,7 @@ impl Wire {
             self.raw.push(None);
             self.on_deliver(idx);
             if let Transport::Tcp(s) = &p.payload {
-                self.diag.deliver(dir, s);
+                self.diag.deliver(dir, s, idx as u64);
             }
         }
         let had_out = !out.is_empty();
@@ -734,7 +799,7 @@ impl Wire {
             self.on_deliver(idx);
             if let Some(p) = self.raw[idx].take() {
                 if let Transport::Tcp(s) = &p.payload {
-                    self.diag.deliver(self.pkts[idx].dir, s);
+                    self.diag.deliver(self.pkts[idx].dir, s, idx as u64);
                 }
                 self.guard.as_ref().unwrap().deliver(p);
             }
